@@ -10,6 +10,9 @@ import (
 	"encoding/binary"
 	"fmt"
 	"math"
+	"os"
+	"path/filepath"
+	"regexp"
 	"testing"
 
 	"github.com/EliCDavis/polyform/formats/stl"
@@ -837,6 +840,13 @@ func runLarge(c LargeCase, o *vh.Obs) *vh.Failure {
 	if c.Mode <= 1 {
 		return runBytes(BytesCase{Raw: largeBytes(c), Reader: c.Reader}, &vh.Obs{})
 	}
+	return runMesh(MeshCase{M: largeDesc(c), Reader: c.Reader}, &vh.Obs{})
+}
+
+func largeMesh(c LargeCase) modeling.Mesh { return largeDesc(c).Build() }
+
+// largeDesc builds the recipe mesh of modes 2..4.
+func largeDesc(c LargeCase) gen.MeshDesc {
 	r := lcg(c.Seed)
 	d := gen.MeshDesc{Topo: int(modeling.TriangleTopology), V3: map[string][][3]gen.F{}}
 	if c.Mode == 2 {
@@ -868,7 +878,7 @@ func runLarge(c LargeCase, o *vh.Obs) *vh.Failure {
 		}
 		d.V3[modeling.NormalAttribute] = nr
 	}
-	return runMesh(MeshCase{M: d, Reader: c.Reader}, &vh.Obs{})
+	return d
 }
 
 // ---------------------------------------------------------------- sub-check 4: record-count sweep
@@ -925,12 +935,91 @@ func runSweep(c LargeCase, o *vh.Obs) *vh.Failure {
 	return f
 }
 
+// ---------------------------------------------------------------- through the file system
+
+// FileCase: stl.Save / stl.Load must be the stream functions applied to a file: the saved bytes are
+// the bytes WriteMesh produces, and the loaded mesh writes to the same bytes as ReadMesh's result.
+type FileCase struct {
+	Tris int
+	Seed uint32
+	Mode int // 2 per-corner vertices, 3 welded grid, 4 welded grid with normals (as LargeCase)
+	Name string
+}
+
+func genFile(t *rapid.T) FileCase {
+	return FileCase{Tris: rapid.SampledFrom([]int{1, 2, 5, 80, 81, 82, 163, 164, 1000, 5000}).Draw(t, "tris"), Seed: rapid.Uint32().Draw(t, "seed"),
+		Mode: rapid.IntRange(2, 4).Draw(t, "mode"), Name: rapid.SampledFrom([]string{"a.stl", "B.STL", "noext", "dots.in.name.stl"}).Draw(t, "name")}
+}
+
+func runFile(c FileCase, o *vh.Obs) *vh.Failure {
+	if c.Tris < 1 || c.Tris > 100000 || c.Mode < 2 || c.Mode > 4 || !regexp.MustCompile(`^[A-Za-z0-9_.]{1,30}$`).MatchString(c.Name) {
+		o.Class("out-of-domain")
+		return nil
+	}
+	o.NonTrivial()
+	o.Class(fmt.Sprintf("files/mode-%d", c.Mode))
+	if c.Tris > 81 {
+		o.Class("files/beyond-one-4096-byte-buffer")
+	}
+	m := largeMesh(LargeCase{Tris: c.Tris, Seed: c.Seed, Mode: c.Mode})
+	want := &bytes.Buffer{}
+	if err := stl.WriteMesh(want, m); err != nil {
+		return vh.Failf("files/write-error", "WriteMesh: %v", err)
+	}
+	dir, cleanup, err := vh.TempDir("c07files")
+	if err != nil {
+		return vh.Failf("harness/tempdir", "%v", err)
+	}
+	defer cleanup()
+	path := filepath.Join(dir, c.Name)
+	if err := stl.Save(path, m); err != nil {
+		return vh.Failf("files/save-error", "Save(%q) of %d triangles: %v", c.Name, c.Tris, err)
+	}
+	got, err := os.ReadFile(path)
+	if err != nil {
+		return vh.Failf("files/save-error", "Save(%q) left no readable file: %v", c.Name, err)
+	}
+	if !bytes.Equal(got, want.Bytes()) {
+		return vh.Failf("files/saved-bytes-differ", "Save(%q) of %d triangles wrote %d bytes, WriteMesh writes %d (first difference at %d)", c.Name, c.Tris, len(got), want.Len(), firstDiff(got, want.Bytes()))
+	}
+	loaded, err := stl.Load(path)
+	if err != nil || loaded == nil {
+		return vh.Failf("files/load-error", "Load of what Save just wrote (%d triangles): %v", c.Tris, err)
+	}
+	ref, err := stl.ReadMesh(bytes.NewReader(want.Bytes()))
+	if err != nil {
+		return vh.Failf("files/read-error", "ReadMesh of WriteMesh's bytes: %v", err)
+	}
+	a, b := &bytes.Buffer{}, &bytes.Buffer{}
+	if err := stl.WriteMesh(a, *loaded); err != nil {
+		return vh.Failf("files/write-error", "WriteMesh(Load): %v", err)
+	}
+	if err := stl.WriteMesh(b, *ref); err != nil {
+		return vh.Failf("files/write-error", "WriteMesh(ReadMesh): %v", err)
+	}
+	if !bytes.Equal(a.Bytes(), b.Bytes()) {
+		return vh.Failf("files/loaded-mesh-differs", "the mesh Load returns for %d saved triangles differs from what ReadMesh returns for the same bytes (first difference of their re-written bytes at %d)", c.Tris, firstDiff(a.Bytes(), b.Bytes()))
+	}
+	return nil
+}
+
+func firstDiff(a, b []byte) int {
+	n := min(len(a), len(b))
+	for i := 0; i < n; i++ {
+		if a[i] != b[i] {
+			return i
+		}
+	}
+	return n
+}
+
 func TestC07(t *testing.T) {
 	vh.Drive(t, vh.Spec[MeshCase]{Name: "mesh-roundtrip", Quick: 500000, Thorough: 15000000, Gen: genMesh, Run: runMesh})
 	vh.Drive(t, vh.Spec[BytesCase]{Name: "bytes-roundtrip", Quick: 700000, Thorough: 21000000, Gen: genBytes, Run: runBytes})
 	vh.Drive(t, vh.Spec[vh.Conc[MeshCase]]{Name: "concurrent-mesh-roundtrip", Quick: 4000, Thorough: 120000, Gen: vh.GenConc(genMesh), Run: vh.RunConc(runMesh), Repeat: 20})
 	vh.Drive(t, vh.Spec[vh.Conc[BytesCase]]{Name: "concurrent-bytes-roundtrip", Quick: 4000, Thorough: 120000, Gen: vh.GenConc(genBytes), Run: vh.RunConc(runBytes), Repeat: 20})
 	vh.Drive(t, vh.Spec[LargeCase]{Name: "large", Quick: 240, Thorough: 8000, Gen: genLarge, Run: runLarge})
+	vh.Drive(t, vh.Spec[FileCase]{Name: "files", Quick: 400, Thorough: 12000, Gen: genFile, Run: runFile})
 	vh.Enumerate(t, vh.Spec[LargeCase]{Name: "count-sweep", Run: runSweep,
 		Key:    func(c LargeCase) string { return fmt.Sprint(c.Tris, c.Seed, c.Reader, c.Mode) },
 		Sample: func(c LargeCase) any { return c }}, sweepCases())
